@@ -9,8 +9,9 @@
 #include "../harness/tldutil.hpp"
 
 using namespace vf;
-extern "C" const vapi dflt_api;
+extern "C" const vapi dflt_api, extra_api;
 static const vapi *A = &dflt_api;
+static const vapi *VAR2[2] = {&dflt_api, &extra_api};   // the policy must not depend on EAV_EXTRA
 static TailBuf TB(4096);
 static Consts *C;
 static Tlds T;
@@ -49,8 +50,9 @@ static int oracle_class(const Bytes &addr) {
     return c ? C->idx(*c) : -1;
 }
 
-static std::optional<Failure> check_real(Run &R, Obj &o, int mode, int tld, const Bytes &addr, int mask) {
-    Case cs; cs.i("kind", 1).i("mode", mode).i("tld", tld).b("addr", addr).i("mask", mask); g_case = cs.str();
+static std::optional<Failure> check_real(Run &R, Obj &o, int mode, int tld, const Bytes &addr, int mask, int build = 0) {
+    const vapi *A = VAR2[build];
+    Case cs; cs.i("kind", 1).i("mode", mode).i("tld", tld).b("addr", addr).i("mask", mask).i("build", build); g_case = cs.str();
     int k = oracle_class(addr);
     if (k == -9) return std::nullopt;
     A->obj_set_allow(o.p, mask);
@@ -64,7 +66,7 @@ static std::optional<Failure> check_real(Run &R, Obj &o, int mode, int tld, cons
     R.count(!tld ? "real-tld-off" : k >= 0 ? std::string("real-class-") + CLASS_NAMES[k] : k == -1 ? "real-unlisted" : k == -2 ? "real-not-fqdn" : "real-literal");
     if (out.ret != w.ret || out.errcode != w.errcode) {
         char t[16]; snprintf(t, sizeof t, "%x", mask);
-        return Failure{"policy-real", cs.str(), std::string("mode ") + ref::MODE_NAME[mode] + " tld_check=" + std::to_string(tld) + " allow_tld=0x" + t + " address '" + show(addr) +
+        return Failure{"policy-real", cs.str(), std::string(build ? "[EAV_EXTRA build] " : "") + "mode " + ref::MODE_NAME[mode] + " tld_check=" + std::to_string(tld) + " allow_tld=0x" + t + " address '" + show(addr) +
                        "': expected ret=" + std::to_string(w.ret) + " errcode=" + std::to_string(w.errcode) + ", got " + outcome_str(out)};
     }
     return std::nullopt;
@@ -82,7 +84,7 @@ static std::vector<Bytes> real_addresses() {
     // IDNA full-stop look-alikes as the only separators, fullwidth spellings of reserved names, an upper-case A-label TLD
     for (const char *d : {"iana\xE3\x80\x82org", "\xD0\xBF\xD0\xBE\xD1\x87\xD1\x82\xD0\xB0\xE3\x80\x82\xD1\x80\xD1\x84", "mail\xEF\xBC\x8Eru", "a\xEF\xBD\xA1" "b\xEF\xBD\xA1" "com",
                           "mail.\xEF\xBD\x8C\xEF\xBD\x8F\xEF\xBD\x83\xEF\xBD\x81\xEF\xBD\x8C\xEF\xBD\x88\xEF\xBD\x8F\xEF\xBD\x93\xEF\xBD\x94", "\xEF\xBD\x85\xEF\xBD\x98\xEF\xBD\x81\xEF\xBD\x8D\xEF\xBD\x90\xEF\xBD\x8C\xEF\xBD\x85.com",
-                          "Example.COM", "www.eXample.Org", "x.XN--P1AI", "4.3.2.1.in-addr.arpa"})
+                          "Example.COM", "www.eXample.Org", "x.XN--P1AI", "4.3.2.1.in-addr.arpa", "example.test", "mail.example.invalid", "EXAMPLE.LocalHost", "example.example", "a.b.example.onion"})
         v.push_back(Bytes("u@") + d);
     return v;
 }
@@ -102,17 +104,18 @@ static void stage_callback(Run &R) {
 static void stage_real(Run &R) {
     std::vector<Bytes> addrs = real_addresses();
     uint64_t idx = 0, total = 0;
-    for (int mode = 0; mode < 4; mode++) for (int tld = 0; tld < 2; tld++) for (const Bytes &a : addrs) {
+    for (int build = 0; build < 2; build++) for (int mode = 0; mode < 4; mode++) for (int tld = 0; tld < 2; tld++) for (const Bytes &a : addrs) {
         if (mode < 3 && !ref::pure_ascii(a)) continue;
         total += 2048;
         if ((int) (idx++ % R.a.nworkers) != R.a.worker) continue;
-        Obj o(A); if (o.configure(mode, tld) != 0) { R.fail(Failure{"setup-failed", "", "eav_setup failed"}); return; }
-        for (int mask = 0; mask < 2048; mask++) { auto f = check_real(R, o, mode, tld, a, mask); if (f && !R.fail(*f)) return; }
+        Obj o(VAR2[build]); if (o.configure(mode, tld) != 0) { R.fail(Failure{"setup-failed", "", "eav_setup failed"}); return; }
+        for (int mask = 0; mask < 2048; mask++) { auto f = check_real(R, o, mode, tld, a, mask, build); if (f && !R.fail(*f)) return; }
+        if (build) continue;
         // bits above 10 must not matter either
         for (int hi : {1 << 11, 1 << 15, 1 << 30, (int) 0x80000000u}) for (int mask : {0, 0x7ff, 0x2a8}) { auto f = check_real(R, o, mode, tld, a, mask | hi); if (f) { f->casestr = g_case; if (!R.fail(*f)) return; } }
         R.sample("real", std::string("mode ") + ref::MODE_NAME[mode] + " tld=" + std::to_string(tld) + " " + show(a) + " x all 2048 masks", 6);
     }
-    R.space("C08 real addresses (" + std::to_string(addrs.size()) + ": two rows per table class, reserved, unlisted, non-FQDN, literals) x 4 modes x tld_check {0,1} x all 2048 masks", total);
+    R.space("C08 real addresses (" + std::to_string(addrs.size()) + ": two rows per table class, reserved, unlisted, non-FQDN, literals) x 4 modes x tld_check {0,1} x all 2048 masks x {default, EAV_EXTRA} build", total);
 }
 
 static std::optional<Failure> check_defaults(Run &R) {
@@ -147,8 +150,9 @@ static std::optional<Failure> replay(Run &R, const Case &c) {
     int kind = (int) c.geti("kind");
     if (kind == 0) return check_cb(R, (int) c.geti("mode"), (int) c.geti("tld"), (int) c.geti("rc"), (int) c.geti("mask"));
     if (kind == 2) return check_defaults(R);
-    Obj o(A); if (o.configure((int) c.geti("mode"), (int) c.geti("tld")) != 0) return Failure{"setup-failed", "", "eav_setup failed"};
-    return check_real(R, o, (int) c.geti("mode"), (int) c.geti("tld"), c.getb("addr"), (int) c.geti("mask"));
+    int build = (int) c.geti("build", 0);
+    Obj o(VAR2[build]); if (o.configure((int) c.geti("mode"), (int) c.geti("tld")) != 0) return Failure{"setup-failed", "", "eav_setup failed"};
+    return check_real(R, o, (int) c.geti("mode"), (int) c.geti("tld"), c.getb("addr"), (int) c.geti("mask"), build);
 }
 
 int main(int argc, char **argv) {
